@@ -25,14 +25,22 @@ structure Fn where
   name : String
   run : J → Except Exc J
 
+/-- one application in `f1(...fn(x)...)`, logging the call -/
+def applyFnStep {α} (acc : List (Ev α) × Except Exc J) (f : Fn) : List (Ev α) × Except Exc J :=
+  match acc with
+  | (evs, .ok v) => (evs ++ [Ev.fnCall f.name v], f.run v)
+  | (evs, .error e) => (evs, .error e)
+
 /-- apply `f1(...fn(x)...)`: the functions are applied right-to-left -/
 def applyFns {α} : List Fn → J → List (Ev α) × Except Exc J
   | [], x => ([], .ok x)
-  | fns, x =>
-    fns.reverse.foldl (fun (acc : List (Ev α) × Except Exc J) f =>
-      match acc with
-      | (evs, .ok v) => (evs ++ [Ev.fnCall f.name v], f.run v)
-      | (evs, .error e) => (evs, .error e)) ([], .ok x)
+  | fns, x => fns.reverse.foldl applyFnStep ([], .ok x)
+
+/-- not a result / `StopIteration` / raise of the search that emitted it (those belong to the
+nested search's own consumer, the has-loop, and are not part of the outer trace) -/
+def Ev.isClean : Ev α → Bool
+  | .result _ | .stop | .raised _ => false
+  | _ => true
 
 /-- `for next_match in nested_find_matches(path, c): if test(next_match.data): return True`
 / `return False`, as a loop over `next()` of a nested traverser rooted at `imag c`. -/
@@ -41,7 +49,7 @@ def hasLoop (cx : Ctx α) (steps : Array (Step α)) (c : MNode α)
   | 0, _ => ([], .raise (.user "FUEL"))
   | fuel+1, st =>
     let (st', evs, sig) := next cx.view steps (.nested c) cx.limit st
-    let evs := evs.filter (fun e => match e with | .result _ | .stop | .raised _ => false | _ => true)
+    let evs := evs.filter Ev.isClean
     let evs := evs.map (Ev.stampIfNone c)
     match sig with
     | .result n =>
@@ -57,19 +65,22 @@ def hasLoop (cx : Ctx α) (steps : Array (Step α)) (c : MNode α)
     | .none => (evs, .raise (.user "BUG"))
     | .bug m => (evs, .raise (.user ("BUG:" ++ m)))
 
+/-- the test a has-predicate applies to one selected value: `op (f1 (… (fn x)))`;
+with neither functions nor operator, existence alone -/
+def hasTest (op : Option Fn) (fns : List Fn) : J → List (Ev α) × Except Exc J := fun x =>
+  match op, fns with
+  | none, [] => ([], .ok (.bool true))
+  | _, _ =>
+    let (evs, r) := applyFns fns x
+    match r, op with
+    | .ok v, some o => (evs, o.run v)
+    | .ok v, none => (evs, .ok v)
+    | .error e, _ => (evs, .error e)
+
 /-- `has(path)`, `has(path <op> v)`, `has(path, f1, …)`, `has(path <op> v, f1, …)`:
 `op` is `none` for a bare path. -/
 def has (cx : Ctx α) (steps : List (Step α)) (op : Option Fn) (fns : List Fn) : Pred α := fun c =>
-  let test : J → List (Ev α) × Except Exc J := fun x =>
-    match op, fns with
-    | none, [] => ([], .ok (.bool true))
-    | _, _ =>
-      let (evs, r) := applyFns fns x
-      match r, op with
-      | .ok v, some o => (evs, o.run v)
-      | .ok v, none => (evs, .ok v)
-      | .error e, _ => (evs, .error e)
-  let (evs, res) := hasLoop cx steps.toArray c test cx.fuel {}
+  let (evs, res) := hasLoop cx steps.toArray c (hasTest op fns) cx.fuel {}
   { evs := evs, res := res }
 
 /-- `has_not(...)`: `not predicate(match)` -/
